@@ -226,12 +226,19 @@ func c04Deviate(idx int, rng *rand.Rand, kind string) *Result {
 	}
 	type dev struct {
 		off  int
-		mask byte
+		mask []byte
 		what string
 	}
-	devs := []dev{{pos + 3, byte(n0), "offset->0"}, {pos + 3, byte(n0) ^ byte(n0-1), "offset-1"}, {pos + 7, 1, "count^1"}}
+	// rng2 rewrites the (offset, count) message to another range
+	rng2 := func(off2, cnt2 int, what string) dev {
+		return dev{pos + 3, []byte{byte(n0) ^ byte(off2), 0, 0, 0, byte(n1) ^ byte(cnt2)}, what}
+	}
+	devs := []dev{{pos + 3, []byte{byte(n0)}, "offset->0"}, {pos + 3, []byte{byte(n0) ^ byte(n0-1)}, "offset-1"}, {pos + 7, []byte{1}, "count^1"},
+		// ranges that end where the honest one ends, start at 0, or cover everything
+		rng2(0, n0+n1, "all-inputs"), rng2(n0-1, n1+1, "one-more-at-the-front"), rng2(0, n0, "garbler-range"),
+		rng2(1, n0+n1-1, "all-but-first")}
 	for _, d := range devs {
-		sr := runWhole(circ, x, y, sessOpts{ot: kind, record: true, randSeed: uint64(seed())<<32 + uint64(idx)*7 + 12, corruptAt: d.off, mask: []byte{d.mask}, corruptGE: false, timeout: 20e9})
+		sr := runWhole(circ, x, y, sessOpts{ot: kind, record: true, randSeed: uint64(seed())<<32 + uint64(idx)*7 + 12, corruptAt: d.off, mask: d.mask, corruptGE: false, timeout: 20e9})
 		if len(sr.otG.sent) == 0 {
 			continue // refused before OT
 		}
